@@ -68,6 +68,23 @@ def balanced (nv : Nat) (idx : Array Nat) : String :=
     if fast == spec then boolStr spec else "oracle-self-check-failed"
   else boolStr fast
 
+/-- `closed`, or exactly the fine-resolution weld pinch (known finding C09-weld-pinch-fine-resolution): balanced, no
+    degenerate face, and every directed edge that occurs more than once joins two vertices that both lie within the weld
+    radius (1.1e-3 world units per coordinate = `1.1e-3·cpu` cells) of a lattice corner -/
+def closedOrWeldPinch (cpu : Float) (nv : Nat) (idx : Array Nat) (pos : Array Float) : Bool :=
+  let tris := trisOf idx
+  if idx.size % 3 == 0 && closedFast nv tris then true
+  else
+    let n := nv + 1
+    let nondeg := tris.all (fun t => t.1 != t.2.1 && t.2.1 != t.2.2 && t.2.2 != t.1 && t.1 < nv && t.2.1 < nv && t.2.2 < nv)
+    let delta : Float := 1.1e-3 * cpu
+    let nearCorner (i : Nat) : Bool :=
+      [0, 1, 2].all fun k => let u := pos[3*i+k]! * cpu; (u - u.round).abs ≤ delta
+    let fw := sortedNat (tris.flatMap fun t => #[t.1 * n + t.2.1, t.2.1 * n + t.2.2, t.2.2 * n + t.1])
+    let dupOk := (List.range (fw.size - 1)).all fun i =>
+      fw[i]! != fw[i+1]! || (nearCorner (fw[i]! / n) && nearCorner (fw[i]! % n))
+    idx.size % 3 == 0 && nondeg && balancedFast nv tris && dupOk
+
 /-! ### orientation: signed volume -/
 
 def signedVolume6 (tris : Array (Nat × Nat × Nat)) (p : Array Float) : Float :=
@@ -407,6 +424,25 @@ def handle (op : String) (args : List String) : Option String := do
       let (idx, rest) ← takeNats (3 * nt) rest
       if !rest.isEmpty then none
       pure (closed nv idx)
+    | _ => none
+  -- the strict predicate on known-finding class 3 (weld pinch at fine resolution)
+  | "c09.holds.closed_weld_pinch_witness" =>
+    match args with
+    | nv :: nt :: rest => do
+      let nv ← nat? nv; let nt ← nat? nt
+      let (idx, rest) ← takeNats (3 * nt) rest
+      if !rest.isEmpty then none
+      pure (closed nv idx)
+    | _ => none
+  -- random (non-catalogue) canvases: strict closed, or exactly that mechanism
+  | "c09.holds.closed_or_weld_pinch" =>
+    match args with
+    | cpu :: nv :: nt :: rest => do
+      let cpu ← hexF? cpu; let nv ← nat? nv; let nt ← nat? nt
+      let (idx, rest) ← takeNats (3 * nt) rest
+      let (pos, rest) ← takeFloats (3 * nv) rest
+      if !rest.isEmpty then none
+      pure (boolStr (closedOrWeldPinch cpu nv idx pos))
     | _ => none
   | "c09.holds.closed" =>
     match args with
